@@ -162,6 +162,15 @@ def H_convert(ctx, cfg):
 
 # --------------------------------------------------------------------- replay
 
+def _close_sharded_accessors():
+    """What the atexit hook of ShardedFileAccessor does at the end of the process."""
+    import gc
+    sfa = load.mod("sharded_file_accessor")
+    for o in gc.get_objects():
+        if isinstance(o, sfa.ShardedFileAccessor):
+            o.close()
+
+
 def replay(cfg, cex):
     import os
     import tempfile
@@ -198,8 +207,7 @@ def replay(cfg, cex):
             pio.get_IO_for_new_dataset(copy.deepcopy(dinfo), dacc)
         try:
             cc_mod.convert_chunks(src_url, dst_url, copy_info=cfg["copy_info"], options=_opts(cfg["dlay"]))
-            import atexit
-            atexit._run_exitfuncs()
+            _close_sharded_accessors()
         except Exception as e:
             return True, f"convert_chunks raised {type(e).__name__}: {e}"
         want_info = sinfo if cfg["copy_info"] else dinfo
